@@ -518,6 +518,8 @@ def idCheck (batch : Bool) (rq : Req) : Option String :=
 /-- the part of `handleCreateCommon` after policy resolution -/
 def createTail (env : Env) (par : Parent) (ep : Endpoint) (rq : Req) (batch : Bool) (policies : List Name) : Res :=
   let role := endpointRole ep
+  -- root tokens may not be created from a parent namespace: tested on the RESOLVED policies
+  if policies.contains nRoot && env.crossNS then .err "ns-root" else
   if policies.contains nRoot && !par.policies.contains nRoot then .err "root-needs-root" else
   if policies.contains nRoot && batch then .err "batch-root" else
   match orphanOf env ep rq with
@@ -546,7 +548,6 @@ def createTail (env : Env) (par : Parent) (ep : Endpoint) (rq : Req) (batch : Bo
 def createMid (env : Env) (par : Parent) (ep : Endpoint) (rq : Req) : Res :=
   let role := endpointRole ep
   if env.crossNS && !env.sudo then .err "ns-sudo" else
-  if env.crossNS && rq.policies.contains nRoot then .err "ns-root" else
   match batchOf role rq with
   | .error e => .err e
   | .ok batch =>
